@@ -459,6 +459,10 @@ def r5_shape_to_mode(ctx: Ctx) -> None:
     if idx is None:
         raise AnalysisError("parse_opcode: OpcodeAstNode(...) has no index= argument")
     used = {n.id for n in ast.walk(idx) if isinstance(n, ast.Name)}
+    for _ in range(3):  # follow plain copies (`index = index_tmp`) back to where the value was read
+        for st in walk_no_nested(po.node):
+            if isinstance(st, ast.Assign) and len(st.targets) == 1 and isinstance(st.targets[0], ast.Name) and st.targets[0].id in used and isinstance(st.value, ast.Name):
+                used.add(st.value.id)
     # sources: tuple-unpacked second result of parse_operand_and_addressing, and `.value` of an index token
     inner = outer = None
     for n in walk_no_nested(po.node):
@@ -566,12 +570,27 @@ def r6_rejection_discipline(ctx: Ctx) -> None:
     from ..match import canonical_subscripts
 
     texts = canonical_subscripts(ge.node)
+    # `.get(k)` whose None result is tested and raises is the explicit spelling of a rejecting lookup; its layout is not modelled.
+    # `.get` whose result is never tested against None before use is a defaulting lookup: an undefined mode gets some emitter / None.
+    gets = [c for c in calls_in(ge.node) if isinstance(c.func, ast.Attribute) and c.func.attr in ("get", "setdefault")]
+    none_guards = [i for i in walk_no_nested(ge.node) if isinstance(i, ast.If) and " is None" in unparse(i.test) and any(isinstance(x, ast.Raise) for b in i.body for x in ast.walk(b))]
+    guarded_gets = []
+    for c in gets:
+        if c.func.attr == "get" and len(c.args) == 1:  # type: ignore[union-attr]
+            holders = [unparse(a.targets[0]) for a in walk_no_nested(ge.node) if isinstance(a, ast.Assign) and any(x is c for x in ast.walk(a.value))]
+            if holders and any(f"{h} is None" in unparse(gd.test) for h in holders for gd in none_guards):
+                guarded_gets.append(c)
+                continue
+            # a value that only feeds another guarded lookup (`m = T.get(a); e = m.get(b) if m is not None else None`)
+            if holders and any(f"{h} is not None" in unparse(x) or f"{h} is None" in unparse(x) for h in holders for x in ast.walk(ge.node) if isinstance(x, (ast.IfExp, ast.If))):
+                guarded_gets.append(c)
+                continue
+        ctx.fail(f"_get_emitter:{unparse(c)[:50]}", "a defaulting lookup replaces a rejecting subscript")
+    if guarded_gets and len(guarded_gets) == len(gets):
+        raise AnalysisError("OpcodeNode._get_emitter: lookups are spelled `.get()` + `is None` + raise; the rejection layout is not modelled")
     ctx.check("snes_opcode_table[self.opcode][self.addressing_mode]" in texts, "_get_emitter:mode-lookup",
               f"plain subscript by mnemonic then addressing mode (found {texts})")
     ctx.check(any(t.endswith("[self.index]") for t in texts), "_get_emitter:index-lookup", "plain subscript by index letter")
-    for c in calls_in(ge.node):
-        if isinstance(c.func, ast.Attribute) and c.func.attr in ("get", "setdefault"):
-            ctx.fail(f"_get_emitter:{unparse(c)[:50]}", "a defaulting lookup replaces a rejecting subscript")
     for t in [n for n in walk_no_nested(ge.node) if isinstance(n, ast.Try)]:
         for h in t.handlers:
             ctx.check(always_raises(h.body), f"_get_emitter:except {unparse(h.type)}", "handler re-raises (an unknown mode is an error)")
@@ -597,7 +616,7 @@ def r6_rejection_discipline(ctx: Ctx) -> None:
     # repo-wide: nobody reads the table through a defaulting accessor
     for fn in ctx.repo.all_functions():
         for c in calls_in(fn.node):
-            if isinstance(c.func, ast.Attribute) and c.func.attr == "get" and "snes_opcode_table" in unparse(c.func.value):
+            if isinstance(c.func, ast.Attribute) and c.func.attr == "get" and "snes_opcode_table" in unparse(c.func.value) and fn.fq != ge.fq:
                 ctx.fail(f"{fn.where}:{unparse(c)[:60]}", "defaulting lookup in the opcode table")
     ctx.count("lookups", len(subs))
 
